@@ -184,7 +184,14 @@ def oracle(case: dict):
                 elif op[0] == "ior":
                     s |= argobj
                 elif op[0] == "or":
+                    left = s
                     s = s | argobj
+                    # a builtin dict leaves both operands of | alone: the left operand keeps its items and its tables
+                    if not gen.typed_eq(gen.plain(dict(left)), before) or list(left) != list(before):
+                        return ("or-modifies-left", f"step {step}: a | b changed a: {gen.plain(dict(left))!r} was {before!r}")
+                    if (dict(left.line_comments), dict(left.block_comments), dict(left.includes), dict(left.expressions)) != tabs_before:
+                        return ("or-modifies-left", f"step {step}: a | b changed the tables of a: line comments {dict(left.line_comments)!r} / block comments "
+                                                    f"{dict(left.block_comments)!r} were {tabs_before[0]!r} / {tabs_before[1]!r}")
                 else:
                     s.merge(argobj)
             else:
